@@ -173,7 +173,7 @@ def run_shape(shape, tier):
     for cx in res.cex:
         m = cx["model"]
         bind = templates.bind_concrete(shape["params"], m)
-        rows = {name: (common.rows_from_model(m, name, sqlprogs.LEAVES[name], n) if name != "I" else [{}]) for name in sqlprogs.leaves_in(prog)}
+        rows = {name: (common.rows_from_model(m, name, sqlprogs.table_cols(name), n) if name != "I" else [{}]) for name in sqlprogs.leaves_in(prog)}
         fails, symptom, detail = concrete_check(prog, rows, bind)
         if not fails:
             out["status"] = "harness-error"
